@@ -66,6 +66,10 @@ def param_tokens(p, ctr, ver):
         return out
     if "array" in p:
         return [sample(p["type"], ctr, ver) for _ in range(p["array"])]
+    if p["name"] == "position":
+        # position-restricted items (RECORD_LAYOUT) are written in the order of their positions:
+        # documents are generated in canonical order
+        return [str(ctr.next())]
     return [sample(p["type"], ctr, ver, hexy=(ctr.n % 3 == 0))]
 
 
